@@ -7,7 +7,7 @@ import json, os, re, sys
 HERE = os.path.dirname(os.path.dirname(os.path.abspath(__file__)))
 FLOAT_ONLY = {'seeded/C01-weighted-mean-overflow', 'seeded/C11-guess-multiply-first', 'seeded/R2-C01-weighted-mean-overflow',
               'seeded/R2-C11-guess-multiply-first', 'seeded/R3-C11-guess-multiply-first-overflow',
-              'seeded/R5-C11-bracket-estimate-multiply-first'}
+              'seeded/R5-C11-bracket-estimate-multiply-first', 'seeded/R7-C11-guess-multiplies-before-dividing'}
 HAND_TARGET = {'d1_prefix_nak_right': 'C03', 'd2_prefix_into_shape': 'C13', 'd3_prefix_no_shape_assert': 'C14', 'd4_prefix_ctor_index': 'C10',
                'd5_prefix_fast_trailing': 'C14'}
 p = os.path.join(HERE, 'selftest', 'expect.json')
